@@ -235,6 +235,14 @@ func (m *MultiStore) SameAs(o *MultiStore) bool {
 	return eq
 }
 
+func (m *MultiStore) TotalReads() int {
+	n := 0
+	for _, s := range m.stores {
+		n += s.Reads
+	}
+	return n
+}
+
 func (m *MultiStore) TotalWrites() int {
 	n := 0
 	for _, s := range m.stores {
